@@ -158,8 +158,8 @@ def r17_4(run, model):
 
 
 def run(run, model):
-    r17_1(run, model)
-    r17_2(run, model)
-    r17_3(run, model)
-    r17_4(run, model)
+    run.try_rule(r17_1, model)
+    run.try_rule(r17_2, model)
+    run.try_rule(r17_3, model)
+    run.try_rule(r17_4, model)
     run.assume("ty_compact renders distinct monomorphic types differently (pretty printer; not decided)")
